@@ -46,7 +46,95 @@ def scenarios(seed, n_random):
         ops = [["deploy", 0], ["start", "m1", {"pid": "p1", "x": rng.below(4), "y": rng.below(4)}]]
         ops += gen.random_history(rng.fork("h"), n=rng.range(6, 14), stepped_p=10)
         scs.append({"id": f"r-{seed}-{i}", "config": {"keep": rng.chance(2, 3), "dump_each": True}, "models": [w], "ops": ops})
+    # the process is ended (abort / error from another branch) while a freshly created task still waits in the scheduler queue; afterwards
+    # everything that looks open is answered: nothing is accepted in the finished process (the C03 queued family, kept processes)
+    from . import c03
+    for i in range(max(20, n_random // 15)):
+        sc = c03.queued_scenario(Rng(seed * 50021 + i), i)
+        sc["id"] = f"q-{seed}-{i}"
+        sc["config"] = {"keep": True, "dump_each": True}
+        sc["ops"] = sc["ops"] + [["act", "next", "p1", {"open": 0}, {}], ["runall"], ["act", "submit", "p1", {"open": 0}, {}], ["runall"]]
+        scs.append(sc)
     return scs
+
+
+PAIRS = [("skip", "skip"), ("skip", "next"), ("abort", "next"), ("error", "next"), ("error", "skip"), ("submit", "skip"), ("abort", "skip"), ("next", "next")]
+
+
+def pair_scenarios(seed, rounds):
+    """two clients act at the same time on two different open acts of one process (sibling acts of a parallel block, acts of two
+    parallel branches): what they are told, and what is left, is what one of the two serial orders gives"""
+    scs = []
+    for k, (ea, eb) in enumerate(PAIRS):
+        for shape in ("block", "branches"):
+            if shape == "block":
+                s1 = {"id": "s1", "acts": [{"id": "blk", "uses": "acts.core.block", "params": {"mode": "parallel", "acts": [
+                    {"id": "a", "uses": gen.IRQ, "key": "ka"}, {"id": "b", "uses": gen.IRQ, "key": "kb"}]}}]}
+            else:
+                s1 = {"id": "s1", "branches": [{"id": "b1", "if": "(x == 0)", "steps": [{"id": "s11", "acts": [{"id": "a", "uses": gen.IRQ, "key": "ka"}]}]},
+                                              {"id": "b2", "if": "(x == 0)", "steps": [{"id": "s12", "acts": [{"id": "b", "uses": gen.IRQ, "key": "kb"}]}]}]}
+            w = {"id": "m1", "steps": [s1, {"id": "s2", "acts": [{"id": "z", "uses": gen.IRQ, "key": "kz"}]}]}
+            oa = {"ecode": "e1", "message": "x"} if ea == "error" else {}
+            ob = {"ecode": "e1", "message": "x"} if eb == "error" else {}
+            base = {"config": {"keep": True, "dump_each": True, "mode": "free", "workers": 2}, "models": [w],
+                    "exprs": {"(x == 0)": ["bin", "==", ["var", "x"], ["lit", 0]]}, "pair": [ea, eb], "shape": shape}
+            pids = [f"p{r}" for r in range(rounds)]
+            ops = [["deploy", 0]]
+            for pid in pids:
+                ops += [["start", "m1", {"pid": pid, "x": 0, "y": 0}]]
+            ops.append(["sleep", 30])
+            for pid in pids:
+                ops.append(["conc2", pid, [[ea, {"nid": "a", "k": -1}, oa], [eb, {"nid": "b", "k": -1}, ob]]])
+            scs.append(dict(base, id=f"pair-{seed}-{k}-{shape}-conc", ops=ops, kind="conc", pids=pids))
+            for order in ("ab", "ba"):
+                first, second = ((ea, "a", oa), (eb, "b", ob)) if order == "ab" else ((eb, "b", ob), (ea, "a", oa))
+                ops = [["deploy", 0], ["start", "m1", {"pid": "p0", "x": 0, "y": 0}], ["sleep", 30],
+                       ["act", first[0], "p0", {"nid": first[1], "k": -1}, first[2]], ["sleep", 30],
+                       ["act", second[0], "p0", {"nid": second[1], "k": -1}, second[2]], ["sleep", 30]]
+                scs.append(dict(base, id=f"pair-{seed}-{k}-{shape}-{order}", ops=ops, kind=order, pids=["p0"]))
+    return scs
+
+
+def judge_pairs(ctx, scs, stats):
+    results = ctx.harness("run", scs, tag="pair")
+    groups = {}
+    for sc, res in zip(scs, results):
+        groups.setdefault(sc["id"].rsplit("-", 1)[0], {})[sc["kind"]] = (sc, res)
+
+    def final_of(res, pid):
+        last = None
+        for _, o in obs_of(res, {"dump"}):
+            if o.get("pid") == pid and not o.get("absent"):
+                last = o
+        return (last["state"], tuple(sorted((t["nid"], t["state"]) for t in last["tasks"]))) if last else None
+
+    for key, g in groups.items():
+        if not all(k in g for k in ("conc", "ab", "ba")):
+            continue
+        serial = set()
+        for order in ("ab", "ba"):
+            sc, res = g[order]
+            rs = [bool(o.get("ok")) for _, o in obs_of(res, {"res"}) if "ok" in o][-2:]
+            if order == "ba":
+                rs = rs[::-1]
+            serial.add((tuple(rs), final_of(res, "p0")))
+        sc, res = g["conc"]
+        ctx.cov["evaluations"] += 1
+        if res.get("panic") or res.get("crashed"):
+            ctx.violation("C05|engine-panic", f"engine panicked: {str(res.get('panic'))[:100]}", {"scenario": sc})
+            continue
+        for _, o in obs_of(res, {"conc2"}):
+            stats["pair_rounds"] = stats.get("pair_rounds", 0) + 1
+            got = (tuple(r == "ok" for r in o["results"]), final_of(res, o["pid"]))
+            if got not in serial:
+                oks = {s_[0] for s_ in serial}
+                what = "answers" if got[0] not in oks else "outcome"
+                ctx.violation(f"C05|concurrent-pair-not-serial|{sc['pair'][0]}+{sc['pair'][1]}|{what}",
+                              f"{sc['pair'][0]}(a) and {sc['pair'][1]}(b) at the same time ({sc['shape']}): answers {o['results']}, final {got[1]}; "
+                              f"the two serial orders give {sorted(str(s_[0]) for s_ in serial)}", {"scenario": sc, "serial": [str(x) for x in serial]})
+                break
+        else:
+            ctx.nontrivial(["pair", sc["pair"], sc["shape"]])
 
 
 def conc_scenarios(seed):
@@ -205,6 +293,8 @@ def run(ctx):
             ctx.nontrivial([sc["id"], i])
         if len(ctx.cov["samples"]) < 3:
             ctx.sample({"scenario": sc["id"], "op": sc["ops"][i], "target": rq, "result": {"ok": ok, "err": err}})
+    # ---- two different actions on two different acts of one process at the same time
+    judge_pairs(ctx, pair_scenarios(ctx.seed, 12 if ctx.tier == "quick" else 100), dist)
     # ---- concurrent identical actions
     cscs = conc_scenarios(ctx.seed)
     reps = 1 if ctx.tier == "quick" else 10
